@@ -14,9 +14,11 @@ def run(tier, seed):
     for x in out["recs"]:
         if "dimensions" in (x.get("native") or {}).values():
             out["violations"].append(_pipe.violation(x, "output-dimensions", "native-replay", "C01"))
+        if "format-label" in (x.get("native") or {}).values():
+            out["violations"].append(_pipe.violation(x, "output-format-label", "native-replay", "C01"))
     for x in out["traces"]:
         if not x.get("dims_ok", True):
-            out["violations"].append(_pipe.violation(x, "output-dimensions", "native-trace", "C01"))
+            out["violations"].append(_pipe.violation(x, "output-dimensions-or-format-label", "native-trace", "C01"))
     # the contraction placement itself: spec/Desugar.tla (model-checked against Denote) vs the real desugar_assignment
     from .. import desugar_conf
 
